@@ -160,6 +160,10 @@ impl<'a> ProgGen<'a> {
         Chain { label: self.label(), first, stream, stages, tag: self.tag(), cont: self.cont() }
     }
 
+    pub fn chain_public(&mut self) -> Chain {
+        self.chain()
+    }
+
     pub fn cmd(&mut self, depth: u32) -> Cmd {
         self.budget -= 1;
         let leafy = depth == 0 || self.budget <= 0;
